@@ -164,6 +164,7 @@ def check_case(case: Dict[str, Any], col: Collector) -> None:
     if inner.excluded:
         col.exclude(inner.excluded, "not_constructible")
         return
+    _rerun_same_object(case, inner, labs)
     m = M.run(case)
     labs.append("succeeds" if m["ok"] else "fails:" + m["fail"]["kind"])
     col.count(case, labs, nontrivial(labs))
@@ -171,6 +172,41 @@ def check_case(case: Dict[str, Any], col: Collector) -> None:
         feats = dict(b["features"])
         feats["sweep_kind"] = next(l for l in labs if l.startswith("kind:"))
         col.add(b["check"], feats, case, b["observed"], b["expected"])
+
+
+def _rerun_same_object(case, col, labs) -> None:
+    """History: the SAME Pipeline object (hence the same generated sweep class) is run a second time with different
+    from_context sequences / context parameters; run 2 must equal the reference expansion for run 2's context."""
+    ctx2 = {}
+    changed = False
+    for k, v in (case.get("ctx") or {}).items():
+        if isinstance(v, list) and v and all(isinstance(x, float) for x in v):
+            ctx2[k] = [x + 1.0 for x in reversed(v)] + [7.0]
+            changed = True
+        elif isinstance(v, float):
+            ctx2[k] = v + 0.5
+            changed = True
+        else:
+            ctx2[k] = v
+    if not changed:
+        return
+    labs.append("rerun_same_object_new_context")
+    try:
+        pipe = _api_pipeline(case) if case.get("api") else None
+        if pipe is None:
+            from semantiva.pipeline import Pipeline
+
+            observe.ensure_registered()
+            pipe = Pipeline(M.to_config(case))
+    except Exception:  # noqa: BLE001
+        return
+    first = {k: case[k] for k in ("nodes", "ctx", "data")}
+    observe.run_real(first, pipeline=pipe)
+    second = {"nodes": case["nodes"], "ctx": ctx2, "data": case["data"]}
+    tmp = Collector()
+    _check_with_pipeline(second, tmp, pipe)
+    for b in tmp.buckets.values():
+        col.add("second_run_of_same_pipeline:" + b["check"], b["features"], dict(case, second_ctx=ctx2), b["observed"], b["expected"])
 
 
 def _check_with_pipeline(case, col, pipe):
@@ -215,4 +251,5 @@ def valid(case: Any) -> bool:
 def label_requirements(tier: str) -> Dict[str, Any]:
     return {"kind:source": 0.2, "kind:operation": 0.2, "kind:probe": 0.2, "mode:combinatorial": 0.3, "mode:by_position": 0.3,
             "broadcast_cycling": 0.025, "unequal_rejected": 0.02, "var:range:log": 0.05, "var:ctx": 0.08, "no_endpoint": 0.05,
-            "path:python_api": 0.3, "path:yaml_block": 0.3, "succeeds": 0.4, "var:values:list": 0.05}
+            "path:python_api": 0.3, "path:yaml_block": 0.3, "succeeds": 0.4, "var:values:list": 0.05,
+            "rerun_same_object_new_context": 0.3}
